@@ -8,6 +8,7 @@ import (
 	"github.com/herohde/morlock/pkg/engine"
 	"verif/sim/core"
 	"verif/sim/rules"
+	"verif/sim/sb"
 	"verif/sim/tape"
 )
 
@@ -193,6 +194,19 @@ func (g *uciGUI) nextPosition(t *tape.Tape, lastBest string) posCmd {
 	switch t.Weighted(kinds) {
 	case 0:
 		gm, _ := rules.NewGame(startFEN)
+		if t.Chance(1, 10) {
+			// an opening position reached with a tempo lost (pawn in two steps, a knight out and back): the
+			// placement of a one-move opening with the other side to move
+			f := "abcdefgh"[t.Choose(8)]
+			kn := [][2]string{{"g8f6", "f6g8"}, {"b8c6", "c6b8"}}[t.Choose(2)]
+			for _, u := range []string{fmt.Sprintf("%c2%c3", f, f), kn[0], fmt.Sprintf("%c3%c4", f, f), kn[1]} {
+				if m, ok := rules.ParseUCI(u); ok {
+					gm.Moves = append(gm.Moves, m)
+				}
+			}
+			g.s.res.Probe("opening-placement-with-a-tempo-lost")
+			return buildPosCmd(startFEN, gm)
+		}
 		n := t.Choose(12)
 		if t.Chance(1, 4) {
 			n = t.Choose(40)
@@ -200,6 +214,23 @@ func (g *uciGUI) nextPosition(t *tape.Tape, lastBest string) posCmd {
 		randomLine(t, gm, n, t.Choose(10))
 		return buildPosCmd(startFEN, gm)
 	case 1:
+		if t.Chance(1, 5) {
+			// a scattered position with very few legal moves (the scarcest of a handful of draws): where
+			// "forced move", "no plausible move" and "only one reply" short-cuts live
+			best, bestN := "", 1000
+			for i := 0; i < 12; i++ {
+				f := sb.Scatter(t.Choose)
+				p, _, _ := rules.MustFEN(f)
+				if n := len(p.LegalMoves()); n >= 1 && n < bestN {
+					best, bestN = f, n
+				}
+			}
+			if best != "" {
+				gm, _ := rules.NewGame(best)
+				g.s.res.Probe("position-with-very-few-legal-moves")
+				return buildPosCmd(best, gm)
+			}
+		}
 		st := uciStarts[t.Choose(len(uciStarts))]
 		gm, _ := rules.NewGame(st)
 		randomLine(t, gm, t.Choose(10), t.Choose(10))
